@@ -6,6 +6,7 @@ package helpers
 
 import (
 	"bytes"
+	"context"
 	"errors"
 	"fmt"
 	"sort"
@@ -125,4 +126,34 @@ func H_SELFLIB_j() {
 	mx := max(3, 1)
 	clear(m)
 	assert(k == 1 && arr[1] == 9 && mn == 1 && mx == 3 && len(m) == 0, "builtins")
+}
+
+// H_SELFLIB_k: context deadlines. A context without a deadline reports the zero
+// time (a wrapper that copies it into an operation's Deadline option leaves the
+// operation without a timeout - seed C20-c); WithTimeout reports now+d and
+// expires exactly then; cancellation wins over a later deadline.
+func H_SELFLIB_k() {
+	d, ok := context.Background().Deadline()
+	assert(!ok && d.IsZero(), "no deadline: zero time")
+	t0 := time.Now()
+	ctx, cancel := context.WithTimeout(context.Background(), 3*time.Second)
+	d2, ok2 := ctx.Deadline()
+	assert(ok2 && !d2.IsZero() && d2.Sub(t0) == 3*time.Second, "WithTimeout: deadline is now+d")
+	assert(ctx.Err() == nil, "not expired yet")
+	child, cancel2 := context.WithCancel(ctx)
+	d3, ok3 := child.Deadline()
+	assert(ok3 && d3.Equal(d2), "a child inherits the parent's deadline")
+	select {
+	case <-ctx.Done():
+		assert(false, "not done before the deadline")
+	case <-time.After(2 * time.Second):
+	}
+	<-ctx.Done()
+	assert(time.Since(t0) == 3*time.Second && errors.Is(ctx.Err(), context.DeadlineExceeded), "expires exactly at the deadline")
+	assert(errors.Is(child.Err(), context.DeadlineExceeded), "and takes its children with it")
+	cancel2()
+	cancel()
+	c3, cancel3 := context.WithTimeout(context.Background(), time.Hour)
+	cancel3()
+	assert(errors.Is(c3.Err(), context.Canceled), "cancellation wins over a later deadline")
 }
